@@ -1634,3 +1634,26 @@ func arrayConsts(t *Term) []*Term {
 	arrConstMemo[t] = out
 	return out
 }
+
+// PatchEvidenceMutants records the outcome of the must-fail corpus in the evidence
+// file written by the thorough run.
+func PatchEvidenceMutants(verifDir, prop string, total, killed int, survivors []string) {
+	path := filepath.Join(verifDir, "evidence", prop+".json")
+	b, err := os.ReadFile(path)
+	if err != nil {
+		return
+	}
+	var ev map[string]any
+	if json.Unmarshal(b, &ev) != nil {
+		return
+	}
+	cov, _ := ev["coverage"].(map[string]any)
+	if cov == nil {
+		return
+	}
+	if survivors == nil {
+		survivors = []string{}
+	}
+	cov["mutants"] = map[string]any{"total": total, "killed": killed, "survivors": survivors, "what": "deliberate property-breaking changes of /verif/selftest/mutants/" + prop + " applied to a scratch copy of /repo; killed = this check reports a violation"}
+	writeJSON(path, ev)
+}
